@@ -97,31 +97,85 @@ func nearPoleBounderKind(kind string, p s2.Point) bool {
 	return false
 }
 
-// Known findings are rounding-level only.  A RectBound violation keeps its base kind when the
-// computed lat/lng is outside by at most 2e-15 rad (a few ulps of pi); Cap.RectBound has the
-// documented second class up to 3e-8 rad (asin amplification near a hemisphere); anything
-// larger gets the suffix ".gross", which no known finding lists.
-func rectTier(k string, e float64) string {
+// Kinds carry the discriminating facts of a violation, so that a known finding never hides a
+// different failure at the same call site:
+//
+//	<site>.RectBound[(level0)].<lat|lng|latlng><class>   which coordinate is outside and by how much
+//	  class "(<=2e-15)"   rounding level (a few ulps of pi); for face cells "(<=4.5e-16)" (one ulp)
+//	  class "(<=3e-8,cap-edge-within-1e-6-of-pole)"  only Cap.RectBound, longitude only: asin amplification
+//	  class ".gross"      anything larger (longitude excess is measured as arc length on the parallel)
+//	<site>.CapBound[.pole|.mid|.near-vertex|.elsewhere]<class>
+//	  class "(<=1e-14rad|4ulp)"  outside by at most 1e-14 rad or 4 ulps of the stored chord^2
+//	  class ".gross"
+func rectKind(base string, r s2.Rect, ll s2.LatLng, level0 bool, capNearPole bool) string {
+	latOut := !r.Lat.Contains(float64(ll.Lat))
+	lngOut := !r.Lng.Contains(float64(ll.Lng))
+	coord := ".latlng"
 	switch {
-	case e <= 2e-15:
-		return k
-	case k == "Cap.RectBound" && e <= 3e-8:
-		return k + "(excess>1e-12)"
+	case latOut && !lngOut:
+		coord = ".lat"
+	case lngOut && !latOut:
+		coord = ".lng"
 	}
-	return k + ".gross"
+	e := rectExcess(r, ll)
+	small, label := 2e-15, "(<=2e-15)"
+	if level0 {
+		small, label = 4.5e-16, "(<=4.5e-16)"
+	}
+	switch {
+	case e <= small:
+		return base + coord + label
+	case base == "Cap.RectBound" && coord == ".lng" && capNearPole && e <= 3e-8:
+		return base + coord + "(<=3e-8,cap-edge-within-1e-6-of-pole)"
+	}
+	return base + coord + ".gross"
 }
 
-// A CapBound violation keeps its base kind when the point is outside by at most 1e-14 rad, or by
-// at most 4 ulps of the stored squared chord radius (caps near 180 degrees, where one ulp of the
-// chord is many radians-ulps); otherwise ".gross".
-func capTier(k string, cp s2.Cap, p s2.Point) string {
+func capKind(base string, cp s2.Cap, p s2.Point, replay map[string]interface{}) string {
+	switch base {
+	case "Rect.CapBound":
+		ctr := cp.Center()
+		if ctr.X == 0 && ctr.Y == 0 {
+			base += ".pole"
+		} else {
+			base += ".mid"
+		}
+	case "Cell.CapBound", "CellUnion.CapBound":
+		if nv, ok := replay["near_vertex"].(bool); ok && nv {
+			base += ".near-vertex"
+		} else {
+			base += ".elsewhere"
+		}
+	}
 	r := s2.VerifC10CapRadius(cp)
 	d := float64(s2.ChordAngleBetweenPoints(cp.Center(), p))
 	ulp := math.Nextafter(math.Abs(r), math.Inf(1)) - math.Abs(r)
 	if float64(cp.Center().Angle(p.Vector))-float64(cp.Radius()) <= 1e-14 || (d-r) <= 4*ulp {
-		return k
+		return base + "(<=1e-14rad|4ulp)"
 	}
-	return k + ".gross"
+	return base + ".gross"
+}
+
+// capEdgeNearPole: the cap boundary passes within 1e-6 rad of a pole (where Cap.RectBound's
+// asin(sinA/sinC) is ill-conditioned).
+func capEdgeNearPole(cp s2.Cap) bool {
+	lat := math.Abs(float64(s2.LatLngFromPoint(cp.Center()).Lat))
+	return math.Abs(math.Pi/2-lat-float64(cp.Radius())) <= 1e-6
+}
+
+func capReplay(cp s2.Cap) map[string]interface{} {
+	return map[string]interface{}{"cap_center": chainJSON([]s2.Point{cp.Center()}), "cap_radius_chord2": s2.VerifC10CapRadius(cp), "cap": cp.String(), "cap_near_pole": capEdgeNearPole(cp)}
+}
+
+func nearAnyVertex(p s2.Point, cells ...s2.Cell) bool {
+	for _, cell := range cells {
+		for k := 0; k < 4; k++ {
+			if p.Sub(cell.Vertex(k).Vector).Norm() <= 4e-15 {
+				return true
+			}
+		}
+	}
+	return false
 }
 
 // checkContained runs the conclusion of the property for one contained point.
@@ -144,10 +198,13 @@ func checkContained(c *vkit.Collector, kind string, b boundsOf, p s2.Point, repl
 		if nearPoleBounderKind(kind, p) {
 			k = "RectBounder.latBudget(near-pole)"
 		}
-		if lvl, ok := replay["level"]; ok && lvl == 0 {
+		lvl, ok := replay["level"]
+		level0 := ok && lvl == 0
+		if level0 {
 			k += "(level0)"
 		}
-		k = rectTier(k, rectExcess(b.rect, ll))
+		cnp, _ := replay["cap_near_pole"].(bool)
+		k = rectKind(k, b.rect, ll, level0, cnp)
 		violate(c, k, "a contained point's computed lat/lng is outside RectBound()", rep())
 	}
 	if !b.cap.ContainsPoint(p) {
@@ -156,16 +213,17 @@ func checkContained(c *vkit.Collector, kind string, b boundsOf, p s2.Point, repl
 			// Loop/Polygon/Polyline.CapBound() is RectBound().CapBound(): attribute to Rect.CapBound
 			k = "Rect.CapBound"
 		}
-		k = capTier(k, b.cap, p)
+		k = capKind(k, b.cap, p, replay)
 		violate(c, k, "a contained point is outside CapBound()", rep())
 	}
 	if b.cells != nil && !covers(b.cells, p) {
 		violate(c, kind+".CellUnionBound", "a contained point is not covered by CellUnionBound()", rep())
 	}
+	cnp, _ := replay["cap_near_pole"].(bool)
 	if nearPoleBounderKind(kind, p) {
-		oracleQueue("RectBounder.latBudget(near-pole)", p, b.rect, rep)
+		oracleQueue("RectBounder.latBudget(near-pole)", p, b.rect, false, rep)
 	} else {
-		oracleQueue(kind, p, b.rect, rep)
+		oracleQueue(kind, p, b.rect, cnp, rep)
 	}
 }
 
@@ -217,9 +275,9 @@ func searchEdgesOfChain(c *vkit.Collector, g *gen, chain []s2.Point, rb s2.Rect)
 				violate(c, "RectBounder.edge-point", "a float point exactly on an edge of the chain has its computed lat/lng outside RectBound()", rep())
 			}
 			if nearPoleBounderKind("RectBounder", p) {
-				oracleQueue("RectBounder.latBudget(near-pole)", p, rb, rep)
+				oracleQueue("RectBounder.latBudget(near-pole)", p, rb, false, rep)
 			} else {
-				oracleQueue("RectBounder.edge-point", p, rb, rep)
+				oracleQueue("RectBounder.edge-point", p, rb, false, rep)
 			}
 		}
 	}
@@ -230,7 +288,7 @@ func searchCap(c *vkit.Collector, g *gen, cp s2.Cap) {
 		return
 	}
 	b := boundsFor(cp)
-	capRep := map[string]interface{}{"cap_center": chainJSON([]s2.Point{cp.Center()}), "cap_radius_chord2": s2.VerifC10CapRadius(cp), "cap": cp.String()}
+	capRep := capReplay(cp)
 	if !b.rect.IsValid() {
 		capRep["rect"] = fs(b.rect.Lat.Lo, b.rect.Lat.Hi, b.rect.Lng.Lo, b.rect.Lng.Hi)
 		k := "Cap.RectBound.invalid" // any invalid result is a violation (the -pi endpoint case was fixed by /repo bc3af1c)
@@ -253,7 +311,7 @@ func searchCap(c *vkit.Collector, g *gen, cp s2.Cap) {
 	for k := 0; k < 6; k++ {
 		for _, p := range neighbours(g.pointNearCap(cp)) {
 			if cp.ContainsPoint(p) {
-				checkContained(c, "Cap", b, p, map[string]interface{}{"cap_center": chainJSON([]s2.Point{cp.Center()}), "cap_radius_chord2": s2.VerifC10CapRadius(cp)})
+				checkContained(c, "Cap", b, p, capReplay(cp))
 			}
 		}
 	}
@@ -266,7 +324,7 @@ func searchCap(c *vkit.Collector, g *gen, cp s2.Cap) {
 		q := s2.PointFromLatLng(s2.LatLng{Lat: s1.Angle(lat), Lng: ll.Lng})
 		for _, p := range neighbours(q) {
 			if cp.ContainsPoint(p) {
-				checkContained(c, "Cap", b, p, map[string]interface{}{"cap_center": chainJSON([]s2.Point{cp.Center()}), "cap_radius_chord2": s2.VerifC10CapRadius(cp)})
+				checkContained(c, "Cap", b, p, capReplay(cp))
 			}
 		}
 	}
@@ -274,7 +332,7 @@ func searchCap(c *vkit.Collector, g *gen, cp s2.Cap) {
 
 func searchCapPoint(c *vkit.Collector, cp s2.Cap, p s2.Point) {
 	if cp.ContainsPoint(p) {
-		checkContained(c, "Cap", boundsFor(cp), p, map[string]interface{}{"cap_center": chainJSON([]s2.Point{cp.Center()}), "cap_radius_chord2": s2.VerifC10CapRadius(cp)})
+		checkContained(c, "Cap", boundsFor(cp), p, capReplay(cp))
 	}
 }
 
@@ -307,7 +365,7 @@ func searchAddCap(c *vkit.Collector, g *gen, a, b, ab s2.Cap) {
 	for k := 0; k < 4; k++ {
 		for _, p := range neighbours(g.pointNearCap(b)) {
 			if b.ContainsPoint(p) && !ab.ContainsPoint(p) {
-				violate(c, capTier("Cap.AddCap", ab, p), "a point of the added cap is outside the result", map[string]interface{}{"a": a.String(), "b": b.String(), "p": chainJSON([]s2.Point{p}),
+				violate(c, capKind("Cap.AddCap", ab, p, nil), "a point of the added cap is outside the result", map[string]interface{}{"a": a.String(), "b": b.String(), "p": chainJSON([]s2.Point{p}),
 					"a_center": chainJSON([]s2.Point{a.Center()}), "a_r": s2.VerifC10CapRadius(a), "b_center": chainJSON([]s2.Point{b.Center()}), "b_r": s2.VerifC10CapRadius(b)})
 			}
 			c.Evals++
@@ -361,9 +419,52 @@ func searchCell(c *vkit.Collector, g *gen, cell s2.Cell) {
 	}
 	for _, p := range cands {
 		if cell.ContainsPoint(p) {
-			checkContained(c, "Cell", b, p, map[string]interface{}{"cell": fmt.Sprintf("%x", uint64(cell.ID())), "level": cell.Level()})
+			checkContained(c, "Cell", b, p, map[string]interface{}{"cell": fmt.Sprintf("%x", uint64(cell.ID())), "level": cell.Level(), "near_vertex": nearAnyVertex(p, cell)})
 		}
 	}
+}
+
+// searchFaceCells: the six level-0 cells against every unit vector within +-2 ulps (per
+// coordinate) of their extreme-latitude points (edge midpoints (n+-z)/sqrt2 of the equatorial
+// faces, corners (+-1,+-1,+-1)/sqrt3, polar edge midpoints), and of their extreme-longitude points
+// (side edge midpoints and corners).
+func searchFaceCells(c *vkit.Collector) {
+	base := []s2.Point{}
+	for _, sx := range []float64{-1, 0, 1} {
+		for _, sy := range []float64{-1, 0, 1} {
+			for _, sz := range []float64{-1, 0, 1} {
+				if sx == 0 && sy == 0 && sz == 0 {
+					continue
+				}
+				base = append(base, P(sx, sy, sz)) // face centres, edge midpoints, corners of the cube
+			}
+		}
+	}
+	cells := []s2.Cell{}
+	bounds := []boundsOf{}
+	for f := 0; f < 6; f++ {
+		cell := s2.CellFromCellID(s2.CellIDFromFace(f))
+		cells = append(cells, cell)
+		bounds = append(bounds, boundsFor(cell))
+	}
+	for _, q := range base {
+		for dx := -2; dx <= 2; dx++ {
+			for dy := -2; dy <= 2; dy++ {
+				for dz := -2; dz <= 2; dz++ {
+					p := raw(vkit.Ulps(q.X, dx), vkit.Ulps(q.Y, dy), vkit.Ulps(q.Z, dz))
+					if math.Abs(p.Norm2()-1) > 4*2.220446049250313e-16 {
+						continue
+					}
+					for f, cell := range cells {
+						if cell.ContainsPoint(p) {
+							checkContained(c, "Cell", bounds[f], p, map[string]interface{}{"cell": fmt.Sprintf("face %d", f), "level": 0, "near_vertex": nearAnyVertex(p, cell)})
+						}
+					}
+				}
+			}
+		}
+	}
+	c.Class("cell:level0-extreme-point-family")
 }
 
 func searchCellUnion(c *vkit.Collector, g *gen, cu s2.CellUnion) {
@@ -374,6 +475,10 @@ func searchCellUnion(c *vkit.Collector, g *gen, cu s2.CellUnion) {
 		return
 	}
 	b := boundsFor(&cu)
+	cuCells := []s2.Cell{}
+	for _, id := range cu {
+		cuCells = append(cuCells, s2.CellFromCellID(id))
+	}
 	for _, id := range cu {
 		cell := s2.CellFromCellID(id)
 		cands := []s2.Point{cell.Center()}
@@ -382,7 +487,7 @@ func searchCellUnion(c *vkit.Collector, g *gen, cu s2.CellUnion) {
 		}
 		for _, p := range cands {
 			if cu.ContainsPoint(p) {
-				checkContained(c, "CellUnion", b, p, map[string]interface{}{"union": fmt.Sprint(cu)})
+				checkContained(c, "CellUnion", b, p, map[string]interface{}{"union": fmt.Sprint(cu), "near_vertex": nearAnyVertex(p, cuCells...)})
 			}
 		}
 	}
@@ -390,6 +495,7 @@ func searchCellUnion(c *vkit.Collector, g *gen, cu s2.CellUnion) {
 
 // ---- regions not tied to a [T] loop: polygons, polylines, sub-regions, hulls ----
 func runSearch(c *vkit.Collector, g *gen, budget int) {
+	searchFaceCells(c)
 	searchPolygons(c, g, 60*budget)
 	searchPolylines(c, g, 200*budget)
 	searchWide(c, g, 40*budget)
